@@ -384,6 +384,10 @@ func (p *Project) addDecoys(r *rand.Rand) {
 	p.ExtraNew["ignoredir/mv_out.go"] = mv("ign", "MvOut", 2)
 	p.ExtraOld["testdata/x/mv_in.go"] = mv("td", "MvIn", 1)
 	p.ExtraNew["pkg/l0/mv_in.go"] = mv("l0", "MvIn", 2)
+	// main packages in excluded directories that import a changed project package: never a component
+	toolMain := "package main\n\nimport \"" + Module + "/pkg/l0\"\n\nfunc main() {\n\tprintln(l0.MvIn(1))\n}\n"
+	both("vendor/example.org/tool/main.go", toolMain, toolMain)
+	both("ignoredir/tool/main.go", toolMain, toolMain)
 	both("README.md", "old\n", "new\n")
 	both("data.txt", "1\n", "2\n")
 	o, n = marked("l0")
